@@ -26,7 +26,7 @@ Print Assumptions C16_range_decoder_consumes_exactly.
 Theorem C16_decode_leaves_tail :
   forall c h hist w syms evs c' h' t0 tail n,
   no_end syms -> hist_rel h hist -> data_ok h -> reps_nonneg c ->
-  h_dict h <= 2147483648 -> h_dict h <= w_size w ->
+  h_dict h <= 2147483648 -> (h_dict h <= w_size w \/ h_total h - h_base h <= w_size w) ->
   enc_syms c h syms = Ok (evs, c', h') ->
   probs_ok t0 -> events_bits evs <= RC_MAX_BITS ->
   Rel w hist -> coder_ok c (w_full w) -> w_pending_len w = 0 ->
